@@ -20,6 +20,7 @@ SIZES = {
     "C03": {"quick": (200, 8), "thorough": (900, 24)},
 }
 
+PIN_RUN = 8
 PIN_ALL_SIDS = [0, 1, 2, 4]   # schedules used for "fails everywhere" pins
 
 ASSUMPTIONS = [
@@ -332,7 +333,10 @@ def build_units(prop: str, tier: str, seed: int, scale: float, findings):
     for f in findings:
         if f["property"] != prop or f.get("status") != "known":
             continue
-        for wid, s in f.get("inputs", []):
+        # every listed finding is reproduced in every run: its first
+        # PIN_RUN inputs are always executed (the others when the seeded
+        # sample visits them)
+        for wid, s in f.get("inputs", [])[:PIN_RUN]:
             sids = PIN_ALL_SIDS if s == "*" else [s]
             if prop == "C03":
                 sids = pick_sids(prop, wid, SIZES[prop][tier][1], 0)
